@@ -58,3 +58,31 @@ Example C04_example :
           [Node (L"o") (L"bcdefg") [] 1 7 [Node (L"i") (L"CDE") [] 1 4 [Node (L"x") (L"d") [] 1 2 []]]]).
 Proof. vm_compute. reflexivity. Qed.
 Print Assumptions C04_example.
+
+(* BEGIN shipped-registry instances *)
+(* THE SHIPPED SCANNER (Proofs/DefaultEngine.v): the theorems above hold for any registry with in-bounds hits; these are the same statements about the model of Multidecoder().scan itself - the regenerated registry of all 30 decoders and the keyword searchers (scan_default), the registry with find_powershell_strings replaced by any conforming decoder ps (scan_default_with ... ps; F6 is the reason it does not conform itself), and the registry with the shell module excluded (scan_noshell) - for every input, depth limit, keyword directory and tool oracle (pe_size non-negative). *)
+From MD Require Import Model.EngineR Model.Default Model.Flatten Proofs.DefaultWf Proofs.DefaultEngine Proofs.ChainProofs.
+
+(* whole scan: every attached node sits where a decoder reported it, offsets of the enclosing contexts added up *)
+Theorem C04_shipped_placed : forall pe_size : Base.bytes -> BinNums.Z, (forall b : Base.bytes, BinInt.Z.le BinNums.Z0 (pe_size b)) -> forall (xortool : Base.bytes -> list Base.bytes) (extra : Base.label -> option (Base.bytes -> Base.res (list Node.node))) (ps : Base.bytes -> Base.res (list Node.node)) (kwdir : Registry.dtree) (depth : BinNums.Z) (data : Base.bytes) (t : Node.node), strong_ok ps -> scan_default_with pe_size xortool extra ps kwdir depth data = Base.Ok t -> exists a : Reference.anode, Reference.ref_scan (search_of (search_default_with pe_size xortool extra ps kwdir)) depth data = Base.Ok a /\ Reference.erase a = t /\ EngineInv.deep_ok (search_of (search_default_with pe_size xortool extra ps kwdir)) (BinInt.Z.to_nat depth) a /\ (BinInt.Z.lt BinNums.Z0 depth -> Reference.a_kind a = Reference.KRoot /\ Reference.a_lo a = BinNums.Z0 /\ Reference.a_hi a = Base.blen data /\ Reference.a_node a = Engine.root_node data /\ EngineInv.pass_ok (fun y : Reference.anode => Reference.ref_scan_node (search_of (search_default_with pe_size xortool extra ps kwdir)) (PeanoNat.Nat.pred (BinInt.Z.to_nat depth)) Reference.KDec (Reference.a_lo y) (Reference.a_hi y) (Reference.a_node y) = Base.Ok y /\ EngineInv.deep_ok (search_of (search_default_with pe_size xortool extra ps kwdir)) (PeanoNat.Nat.pred (BinInt.Z.to_nat depth)) y) data BinNums.Z0 data (Reference.a_kids a) /\ List.Forall (EngineInv.placed_ok data BinNums.Z0 data) (Reference.a_kids a)).
+Proof. exact default_scan_placed_ok. Qed.
+Print Assumptions C04_shipped_placed.
+
+Theorem C04_shipped_pass : forall pe_size : Base.bytes -> BinNums.Z, (forall b : Base.bytes, BinInt.Z.le BinNums.Z0 (pe_size b)) -> forall (xortool : Base.bytes -> list Base.bytes) (extra : Base.label -> option (Base.bytes -> Base.res (list Node.node))) (ps : Base.bytes -> Base.res (list Node.node)) (kwdir : Registry.dtree) (d : nat) (n t : Node.node), strong_ok ps -> Node.n_kids n = nil -> scan_node_r (search_default_with pe_size xortool extra ps kwdir) (S d) n = Base.Ok t -> forall (k : Reference.kind) (a b : BinNums.Z), k <> Reference.KCtx -> exists x : Reference.anode, Reference.ref_scan_node (search_of (search_default_with pe_size xortool extra ps kwdir)) (S d) k a b n = Base.Ok x /\ Reference.erase x = t /\ EngineInv.pass_ok (fun y : Reference.anode => Reference.ref_scan_node (search_of (search_default_with pe_size xortool extra ps kwdir)) d Reference.KDec (Reference.a_lo y) (Reference.a_hi y) (Reference.a_node y) = Base.Ok y /\ EngineInv.deep_ok (search_of (search_default_with pe_size xortool extra ps kwdir)) d y) (Node.n_val n) BinNums.Z0 (Node.n_val n) (Reference.a_kids x).
+Proof. exact default_scan_node_pass_ok. Qed.
+Print Assumptions C04_shipped_pass.
+
+Theorem C04_shipped_all_levels : forall pe_size : Base.bytes -> BinNums.Z, (forall b : Base.bytes, BinInt.Z.le BinNums.Z0 (pe_size b)) -> forall (xortool : Base.bytes -> list Base.bytes) (extra : Base.label -> option (Base.bytes -> Base.res (list Node.node))) (ps : Base.bytes -> Base.res (list Node.node)) (kwdir : Registry.dtree) (d : nat) (n t : Node.node), strong_ok ps -> scan_node_r (search_default_with pe_size xortool extra ps kwdir) d n = Base.Ok t -> forall (k : Reference.kind) (a b : BinNums.Z), k <> Reference.KCtx -> exists x : Reference.anode, Reference.ref_scan_node (search_of (search_default_with pe_size xortool extra ps kwdir)) d k a b n = Base.Ok x /\ Reference.erase x = t /\ EngineInv.deep_ok (search_of (search_default_with pe_size xortool extra ps kwdir)) d x.
+Proof. exact default_scan_node_deep_ok. Qed.
+Print Assumptions C04_shipped_all_levels.
+
+Theorem C04_shipped_is_reported_hit : forall pe_size : Base.bytes -> BinNums.Z, (forall b : Base.bytes, BinInt.Z.le BinNums.Z0 (pe_size b)) -> forall (xortool : Base.bytes -> list Base.bytes) (extra : Base.label -> option (Base.bytes -> Base.res (list Node.node))) (ps : Base.bytes -> Base.res (list Node.node)) (kwdir : Registry.dtree) (d : nat) (n t : Node.node), strong_ok ps -> Node.n_kids n = nil -> scan_node_r (search_default_with pe_size xortool extra ps kwdir) (S d) n = Base.Ok t -> forall (k : Reference.kind) (a b : BinNums.Z), k <> Reference.KCtx -> exists (x : Reference.anode) (hits : list Node.node), Reference.ref_scan_node (search_of (search_default_with pe_size xortool extra ps kwdir)) (S d) k a b n = Base.Ok x /\ Reference.erase x = t /\ search_default_with pe_size xortool extra ps kwdir (Node.n_val n) = Base.Ok hits /\ (forall y : Reference.anode, List.In y (EngineInv.pass_nodes (Reference.a_kids x)) -> exists h : Node.node, List.In h hits /\ Engine.nonempty_val h = true /\ Node.n_st h = Reference.a_lo y /\ Node.n_en h = Reference.a_hi y /\ Node.n_ty h = Node.n_ty (Reference.a_node y) /\ Node.n_val h = Node.n_val (Reference.a_node y) /\ Node.n_obf h = Node.n_obf (Reference.a_node y)).
+Proof. exact default_scan_attached_from_hit. Qed.
+Print Assumptions C04_shipped_is_reported_hit.
+
+(* shell module excluded: no hypothesis on any decoder *)
+Theorem C04_noshell_placed : forall pe_size : Base.bytes -> BinNums.Z, (forall b : Base.bytes, BinInt.Z.le BinNums.Z0 (pe_size b)) -> forall (xortool : Base.bytes -> list Base.bytes) (extra : Base.label -> option (Base.bytes -> Base.res (list Node.node))) (kwdir : Registry.dtree) (depth : BinNums.Z) (data : Base.bytes) (t : Node.node), scan_noshell pe_size xortool extra kwdir depth data = Base.Ok t -> exists a : Reference.anode, Reference.ref_scan (search_of (search_noshell pe_size xortool extra kwdir)) depth data = Base.Ok a /\ Reference.erase a = t /\ EngineInv.deep_ok (search_of (search_noshell pe_size xortool extra kwdir)) (BinInt.Z.to_nat depth) a /\ (BinInt.Z.lt BinNums.Z0 depth -> Reference.a_kind a = Reference.KRoot /\ Reference.a_lo a = BinNums.Z0 /\ Reference.a_hi a = Base.blen data /\ Reference.a_node a = Engine.root_node data /\ EngineInv.pass_ok (fun y : Reference.anode => Reference.ref_scan_node (search_of (search_noshell pe_size xortool extra kwdir)) (PeanoNat.Nat.pred (BinInt.Z.to_nat depth)) Reference.KDec (Reference.a_lo y) (Reference.a_hi y) (Reference.a_node y) = Base.Ok y /\ EngineInv.deep_ok (search_of (search_noshell pe_size xortool extra kwdir)) (PeanoNat.Nat.pred (BinInt.Z.to_nat depth)) y) data BinNums.Z0 data (Reference.a_kids a) /\ List.Forall (EngineInv.placed_ok data BinNums.Z0 data) (Reference.a_kids a)).
+Proof. exact noshell_scan_placed_ok. Qed.
+Print Assumptions C04_noshell_placed.
+
+(* END shipped-registry instances *)
